@@ -3,6 +3,8 @@
 //   P <port text hex>                   -> P ok <n> | P err
 #include <pistache/net.h>
 
+#include <arpa/inet.h>
+
 #include "pv_util.h"
 
 using namespace Pistache;
@@ -10,6 +12,33 @@ using namespace Pistache;
 static std::string handle(const std::string& line)
 {
     auto t = pv::split(line);
+    if (t.size() == 3 && t[0] == "U")
+    {
+        // an address as accept() / getpeername() hand it over: family 4 or 6, port in network byte order
+        uint16_t port = static_cast<uint16_t>(atoi(t[2].c_str()));
+        std::ostringstream os;
+        if (t[1] == "4")
+        {
+            sockaddr_in sa {};
+            sa.sin_family = AF_INET;
+            sa.sin_port   = htons(port);
+            inet_pton(AF_INET, "1.2.3.4", &sa.sin_addr);
+            Address a = Address::fromUnix(reinterpret_cast<sockaddr*>(&sa));
+            IP ip(reinterpret_cast<sockaddr*>(&sa));
+            os << "U " << a.host() << " " << static_cast<uint16_t>(a.port()) << " " << ip.getPort() << " " << IP(1, 2, 3, 4).getPort() << " " << IP().getPort();
+        }
+        else
+        {
+            sockaddr_in6 sa {};
+            sa.sin6_family = AF_INET6;
+            sa.sin6_port   = htons(port);
+            inet_pton(AF_INET6, "::1", &sa.sin6_addr);
+            Address a = Address::fromUnix(reinterpret_cast<sockaddr*>(&sa));
+            IP ip(reinterpret_cast<sockaddr*>(&sa));
+            os << "U " << a.host() << " " << static_cast<uint16_t>(a.port()) << " " << ip.getPort() << " " << IP(0, 0, 0, 0, 0, 0, 0, 1).getPort() << " 0";
+        }
+        return os.str();
+    }
     if (t.size() >= 2 && t[0] == "A")
     {
         std::string text = pv::unhex(t[1]);
